@@ -4,6 +4,10 @@ import importlib.util
 def load_module(module_path: str):
     spec = importlib.util.spec_from_file_location(module_path, module_path)
     module = importlib.util.module_from_spec(spec)
-    spec.loader.exec_module(module)
+    # The file is compiled afresh every time. The import system would reuse a bytecode file written for an earlier version of it
+    # when the size and the whole-second modification time did not change (a class file rewritten within the same second).
+    with open(module_path, 'rb') as file:
+        code = compile(file.read(), module_path, 'exec')
+    exec(code, module.__dict__)
 
     return module
